@@ -8,6 +8,7 @@ import (
 	"math/rand/v2"
 	"sort"
 	"sync"
+	"sync/atomic"
 
 	"verif/harness/lib"
 
@@ -23,6 +24,12 @@ import (
 // the set of entries that disappeared: prefix of the model's oldest-first
 // order, last eviction necessary, success => present, oversize => refused
 // without evicting, lookups evict nothing.
+//
+// The statement orders USES, not the individual index operations one request performs: every key one request uses
+// (a FindMissingBlobs call over many digests; an ActionResult lookup with its output files, tree, tree files,
+// stdout, stderr) forms one same-age class. The model gives every use a rank (the number of the request); the
+// prefix rule is maxRank(evicted) <= minRank(survivors), and the necessity rule reads "the last one evicted"
+// existentially (the largest member of the youngest evicted class).
 
 type lruKey struct {
 	kind cache.EntryKind
@@ -32,20 +39,27 @@ type lruKey struct {
 func (k lruKey) String() string { return cache.LookupKey(k.kind, k.hash) }
 
 type lruWorld struct {
-	r       *lib.Run
-	c       disk.Cache
-	max     int64
-	storage string
-	caseID  string
-	cas     []acctItem
-	acKeys  []string
-	acVals  map[string][]byte // current value per AC/RAW lookup key (for validated gets)
-	order   []string          // model recency: index 0 = most recently used; lookup keys "kind/hash"
-	hist    []string
-	removed []string // lru.removed events since last drain (cross-check)
-	remMu   sync.Mutex
-	px      *lib.FakeProxy // nil: no backend
-	srv     *lib.Server    // nil: disk API only
+	r          *lib.Run
+	c          disk.Cache
+	max        int64
+	storage    string
+	caseID     string
+	cas        []acctItem
+	acKeys     []string
+	acVals     map[string][]byte // current value per AC/RAW lookup key (for validated gets)
+	order      []string          // model recency: index 0 = most recently used; lookup keys "kind/hash" (ties of one rank in no particular order)
+	rank       map[string]int64  // request number of the key's last use
+	clock      int64             // number of the current request
+	hist       []string
+	last       *snapInfo           // what the previous judged operation left behind
+	trees      map[string][]string // hash of a Tree blob of the pool -> hashes of the files it lists
+	byHash     map[string]acctItem
+	treeHashes []string
+	ageOpen    map[string]bool // keys the operation being judged may or may not have used before it made room (left open by the statement)
+	removed    []string        // lru.removed events since last drain (cross-check)
+	remMu      sync.Mutex
+	px         *lib.FakeProxy // nil: no backend
+	srv        *lib.Server    // nil: disk API only
 }
 
 func (w *lruWorld) log(f string, a ...any) {
@@ -54,21 +68,66 @@ func (w *lruWorld) log(f string, a ...any) {
 	}
 }
 
+// touch records a use of a key the model holds (a lookup that hit). Keys the model does not hold are left alone:
+// a lookup never creates an entry.
 func (w *lruWorld) touch(k string) {
 	for i, x := range w.order {
 		if x == k {
 			copy(w.order[1:i+1], w.order[:i])
 			w.order[0] = k
+			w.rank[k] = w.clock
 			return
 		}
 	}
+}
+
+// add records a write (or a completed fetch): the key is present and most recently used.
+func (w *lruWorld) add(k string) {
+	if w.has(k) {
+		w.touch(k)
+		return
+	}
 	w.order = append([]string{k}, w.order...)
+	w.rank[k] = w.clock
+}
+
+// begin opens a new request: its uses get a new rank. It returns the state before the request and checks that nothing
+// changed since the previous judged operation ended (entries only ever leave during an operation that brings an item in).
+func (w *lruWorld) begin() snapInfo {
+	w.clock++
+	s := w.snap()
+	if w.last != nil {
+		var gone, came []string
+		for k := range w.last.sizes {
+			if _, ok := s.sizes[k]; !ok {
+				gone = append(gone, k)
+			}
+		}
+		for k := range s.sizes {
+			if _, ok := w.last.sizes[k]; !ok {
+				came = append(came, k)
+			}
+		}
+		if len(gone)+len(came) > 0 {
+			sort.Strings(gone)
+			sort.Strings(came)
+			w.r.Violation("C05:changed-between-operations", fmt.Sprintf("the set of entries changed while no operation was running: gone %v, new %v", gone, came), w.detail(map[string]any{"gone": gone, "new": came}))
+			for _, k := range gone {
+				w.drop(k)
+			}
+		}
+	}
+	w.remMu.Lock()
+	w.removed = nil
+	w.remMu.Unlock()
+	return s
 }
 
 func (w *lruWorld) drop(k string) {
 	for i, x := range w.order {
 		if x == k {
 			w.order = append(w.order[:i], w.order[i+1:]...)
+			delete(w.rank, k)
 			return
 		}
 	}
@@ -106,34 +165,45 @@ func (w *lruWorld) snap() snapInfo {
 
 // judge evaluates one operation. written: key brought in ("" for lookups);
 // L: declared logical size of the incoming item (0 for lookups); ok: the
-// operation reported success.
+// operation reported success (for a fetch: the item is held afterwards).
 func (w *lruWorld) judge(op string, before, after snapInfo, written string, L int64, ok bool) {
 	w.r.Eval()
-	// E = keys that disappeared (other than the written key)
+	w.last = &after
+	// E = keys that disappeared. The written key is set aside when the new version took its place; when the operation
+	// FAILED, its old version is an entry like any other: it may go only as a legitimate least-recently-used victim.
+	_, hadOld := before.sizes[written]
+	oldJudged := written != "" && !ok && hadOld
 	var E []string
 	for k := range before.sizes {
-		if _, still := after.sizes[k]; !still && k != written {
+		if _, still := after.sizes[k]; !still && (k != written || oldJudged) {
 			E = append(E, k)
 		}
 	}
-	// model order oldest-first, restricted to keys != written that were present
-	var oldest []string
-	for i := len(w.order) - 1; i >= 0; i-- {
-		if w.order[i] != written {
-			oldest = append(oldest, w.order[i])
+	sort.Strings(E)
+	if oldJudged {
+		w.r.Count("old-version-of-failed-write.judged")
+		if _, still := after.sizes[written]; !still {
+			w.r.Count("old-version-of-failed-write.gone")
 		}
 	}
 	if written == "" && len(E) > 0 {
 		w.r.Violation("C05:lookup-evicts:"+op, fmt.Sprintf("%d entr(y/ies) disappeared during an operation that brings nothing in (%s): %v", len(E), op, E), w.detail(E))
 	}
 	if written != "" && L > w.max {
+		w.r.Count("oversize." + op)
+		// (input class for the finding key: does the item, as stored, fit although its logical size does not?)
+		class := ""
+		if d, is := after.raw[written]; is && ok && lib.RoundUp4k(d) <= w.max {
+			class = ":on-disk-size-fits"
+		}
 		if ok {
-			w.r.Violation("C05:oversize-accepted:"+op, fmt.Sprintf("item of logical size %d > max_size %d was accepted", L, w.max), w.detail(nil))
+			w.r.Violation("C05:oversize-accepted:"+op+class, fmt.Sprintf("item of logical size %d > max_size %d was accepted (on disk: %d bytes)", L, w.max, after.raw[written]), w.detail(nil))
 		}
 		if len(E) > 0 {
-			w.r.Violation("C05:oversize-evicts:"+op, fmt.Sprintf("item of logical size %d > max_size %d evicted %v", L, w.max, E), w.detail(E))
+			w.r.Violation("C05:oversize-evicts:"+op+class, fmt.Sprintf("item of logical size %d > max_size %d evicted %v", L, w.max, E), w.detail(E))
 		}
-		if _, was := before.sizes[written]; was {
+		if hadOld {
+			w.r.Count("oversize-over-present-key." + op)
 			if _, is := after.sizes[written]; !is {
 				w.r.Violation("C05:oversize-drops-old-version:"+op, "rejected oversize upload removed the existing version of the key", w.detail(nil))
 			}
@@ -142,36 +212,50 @@ func (w *lruWorld) judge(op string, before, after snapInfo, written string, L in
 	if len(E) > 0 && written != "" {
 		w.r.CountN("evictions."+op, int64(len(E)))
 		inE := map[string]bool{}
+		maxRankE := int64(-1)
 		for _, k := range E {
 			inE[k] = true
+			maxRankE = max(maxRankE, w.rank[k])
 		}
-		// 1. prefix
-		for i := 0; i < len(E); i++ {
-			if i >= len(oldest) || !inE[oldest[i]] {
-				survivor := "?"
-				if i < len(oldest) {
-					survivor = oldest[i]
-				}
-				w.r.Violation("C05:not-lru-order:"+op, fmt.Sprintf("evicted %v while the less recently used %s survives (model oldest-first: %v)", E, survivor, oldest), w.detail(E))
-				break
+		// 1. prefix: nothing evicted was used more recently than a survivor (uses of one request are of one age)
+		var survivor string
+		minRankS := int64(-1)
+		for k := range before.sizes {
+			if inE[k] || k == written || w.ageOpen[k] {
+				continue
+			}
+			if rk, known := w.rank[k]; known && (minRankS < 0 || rk < minRankS) {
+				minRankS, survivor = rk, k
 			}
 		}
-		// 2. necessity: without the most recent of the evicted entries the item would not have fitted
-		var newestEvicted string
-		for i := len(oldest) - 1; i >= 0; i-- {
-			if inE[oldest[i]] {
-				newestEvicted = oldest[i]
-				break
+		if minRankS >= 0 && maxRankE > minRankS {
+			var younger []string
+			for _, k := range E {
+				if w.rank[k] > minRankS {
+					younger = append(younger, k)
+				}
+			}
+			w.r.Violation("C05:not-lru-order:"+op, fmt.Sprintf("evicted %v (last used by request %d) while the less recently used %s (request %d) survives", younger, maxRankE, survivor, minRankS), w.detail(E))
+		}
+		if minRankS >= 0 && maxRankE == minRankS {
+			w.r.Count("prefix.cut-inside-one-request's-uses")
+		}
+		// 2. necessity: without the last of the evicted entries the item would not have fitted. Which member of the
+		// youngest evicted class went last is not determined: take the largest (if even that one was not needed, none was).
+		var lastEvicted string
+		for _, k := range E {
+			if w.rank[k] == maxRankE && (lastEvicted == "" || before.sizes[k] > before.sizes[lastEvicted]) {
+				lastEvicted = k
 			}
 		}
 		var sumP int64
 		for _, k := range E {
-			if k != newestEvicted {
+			if k != lastEvicted {
 				sumP += before.sizes[k]
 			}
 		}
 		need := L
-		if d, is := after.raw[written]; is && lib.RoundUp4k(d) > need {
+		if d, is := after.raw[written]; is && ok && lib.RoundUp4k(d) > need {
 			need = lib.RoundUp4k(d)
 		}
 		// accounted size as the statement defines it for a sequential history (nothing in flight): the indexed
@@ -182,7 +266,7 @@ func (w *lruWorld) judge(op string, before, after snapInfo, written string, L in
 		}
 		if A-sumP+need <= w.max {
 			w.r.Violation("C05:evicted-more-than-needed:"+op, fmt.Sprintf("entries account for %d (cache's own counter: %d), item needs %d (larger of logical %d and on-disk), max %d: evicting %v was enough, yet %s went too",
-				A, before.total, need, L, w.max, diff(E, newestEvicted), newestEvicted), w.detail(E))
+				A, before.total, need, L, w.max, diff(E, lastEvicted), lastEvicted), w.detail(E))
 		}
 		w.r.Count("boundary.slack_blocks." + fmt.Sprint(min((A-sumP+need-w.max+4095)/4096, 3)))
 	}
@@ -198,12 +282,36 @@ func (w *lruWorld) judge(op string, before, after snapInfo, written string, L in
 	if after.total > w.max {
 		w.r.Violation("C05:over-max:"+op, fmt.Sprintf("accounted size %d > max %d", after.total, w.max), w.detail(nil))
 	}
-	// cross-check with the hook events
+	// cross-check with the removal events of the index: everything that disappeared was removed during this very
+	// operation, and nothing else was removed (the written key may have been evicted before its new version came in)
 	w.remMu.Lock()
 	ev := w.removed
 	w.removed = nil
 	w.remMu.Unlock()
 	w.r.CountN("hook.lru.removed", int64(len(ev)))
+	evSet := map[string]bool{}
+	for _, k := range ev {
+		evSet[k] = true
+	}
+	var noEvent, noDisappearance []string
+	for _, k := range E {
+		if !evSet[k] {
+			noEvent = append(noEvent, k)
+		}
+	}
+	for k := range evSet {
+		if _, was := before.sizes[k]; was && k != written {
+			if _, still := after.sizes[k]; still {
+				noDisappearance = append(noDisappearance, k)
+			}
+		}
+	}
+	w.r.Count("removal-events.compared")
+	if len(noEvent)+len(noDisappearance) > 0 {
+		sort.Strings(noDisappearance)
+		w.r.Violation("C05:removals-disagree-with-presence:"+op, fmt.Sprintf("entries gone without a removal from the index during the operation: %v; removed from the index during the operation yet present afterwards: %v", noEvent, noDisappearance),
+			w.detail(map[string]any{"events": ev, "disappeared": E}))
+	}
 	// update model presence
 	for _, k := range E {
 		w.drop(k)
@@ -233,6 +341,7 @@ func diff(xs []string, x string) []string {
 func (w *lruWorld) resync() {
 	ctx := context.Background()
 	present := w.snap()
+	w.last = nil
 	keys := make([]string, 0, len(present.sizes))
 	for k := range present.sizes {
 		keys = append(keys, k)
@@ -240,9 +349,10 @@ func (w *lruWorld) resync() {
 	sort.Strings(keys)
 	for _, k := range keys {
 		kind, hash := splitKey(k)
+		w.clock++
 		ok, _ := w.c.Contains(ctx, kind, hash, -1)
 		if ok {
-			w.touch(k)
+			w.add(k)
 		}
 	}
 	// drop model keys that are not present
@@ -265,9 +375,9 @@ func splitKey(k string) (cache.EntryKind, string) {
 	}
 }
 
-func (w *lruWorld) put(op string, kind cache.EntryKind, hash string, content []byte, declared int64, rd io.Reader, expectOK bool) {
+func (w *lruWorld) put(op string, kind cache.EntryKind, hash string, content []byte, declared int64, rd io.Reader, expectOK bool) bool {
 	k := cache.LookupKey(kind, hash)
-	before := w.snap()
+	before := w.begin()
 	err := w.c.Put(context.Background(), kind, hash, declared, rd)
 	lib.WaitEvictionsDrained(w.c, 0)
 	after := w.snap()
@@ -275,42 +385,51 @@ func (w *lruWorld) put(op string, kind cache.EntryKind, hash string, content []b
 	w.log("%s %s L=%d -> ok=%v (accounted %d -> %d)", op, k[:12], declared, ok, before.total, after.total)
 	w.r.Count("op." + op + "." + map[bool]string{true: "ok", false: "err"}[ok])
 	w.judge(op, before, after, k, declared, ok)
-	if ok {
-		if _, is := after.sizes[k]; is {
+	if _, is := after.sizes[k]; !is {
+		w.drop(k)
+	} else if ok {
+		w.add(k)
+	} else {
+		// whether a refused write over an existing version counts as a use of that version is left open by the
+		// statement: one lookup that hits puts model and system in agreement again
+		w.clock++
+		if found, _ := w.c.Contains(context.Background(), kind, hash, -1); found {
 			w.touch(k)
 		}
-	} else if _, is := after.sizes[k]; !is {
-		w.drop(k)
+		w.r.Count("retouch-after-refused-overwrite")
 	}
 	// acceptance of fitting well-formed uploads
 	if expectOK && !ok && declared+declared/100+8192 <= w.max {
 		w.r.Violation("C05:fitting-upload-refused:"+op, fmt.Sprintf("well-formed upload of %d bytes into a cache of %d was refused: %v", declared, w.max, err), w.detail(nil))
 	}
 	w.r.Distinct(w.storage, op, lib.SizeClassName(int(declared)), len(before.sizes), len(after.sizes) < len(before.sizes))
+	return ok
 }
 
 func (w *lruWorld) step(rng *rand.Rand) {
 	ctx := context.Background()
 	ops := []string{"put", "put", "put", "put-exact-fit", "put-one-over", "put-ac", "put-raw", "put-ac", "overwrite-cas", "put-badhash", "put-oversize", "overwrite-oldest", "put-zero",
-		"get", "get-unknown", "getzstd", "contains", "findmissing", "getvalidated", "refresh-oldest", "refresh-oldest", "contains-wrongsize", "get-miss"}
+		"get", "get-unknown", "getzstd", "contains", "findmissing", "getvalidated", "getvalidated", "refresh-oldest", "refresh-oldest", "contains-wrongsize", "get-miss", "put-oversize-present", "put-fail-present"}
 	if w.px != nil {
-		ops = append(ops, "fetch", "fetch", "fetch-unknown", "fetch-miss", "fetch-miss", "fetch-ac")
+		ops = append(ops, "fetch", "fetch", "fetch-unknown", "fetch-unknown", "fetch-miss", "fetch-miss", "fetch-ac")
 	}
 	op := ops[rng.IntN(len(ops))]
 	switch op {
 	case "put", "overwrite-cas":
 		it := w.cas[rng.IntN(len(w.cas))]
 		if op == "overwrite-cas" {
-			// prefer a key that is present
+			// prefer a key that is present (any age)
+			var present []acctItem
 			for _, k := range w.order {
 				if kind, h := splitKey(k); kind == cache.CAS {
-					for _, c := range w.cas {
-						if c.hash == h {
-							it = c
-						}
+					if c, ok := w.byHash[h]; ok {
+						present = append(present, c)
 					}
-					break
 				}
+			}
+			if len(present) > 0 {
+				it = present[rng.IntN(len(present))]
+				w.r.Count("overwrite-cas.present-key")
 			}
 		}
 		w.put(op, cache.CAS, it.hash, it.content, int64(len(it.content)), bytes.NewReader(it.content), true)
@@ -338,8 +457,7 @@ func (w *lruWorld) step(rng *rand.Rand) {
 		// zero-length values are legal in the raw key space and at the disk API
 		kind := []cache.EntryKind{cache.RAW, cache.AC}[rng.IntN(2)]
 		h := w.acKeys[rng.IntN(len(w.acKeys))]
-		w.put(op, kind, h, nil, 0, bytes.NewReader(nil), true)
-		if w.has(cache.LookupKey(kind, h)) {
+		if w.put(op, kind, h, nil, 0, bytes.NewReader(nil), true) {
 			w.acVals[cache.LookupKey(kind, h)] = nil
 		}
 	case "overwrite-oldest":
@@ -358,9 +476,8 @@ func (w *lruWorld) step(rng *rand.Rand) {
 			return
 		}
 		val := w.makeValidAR(rng)
-		w.put(op, kind, h, val, int64(len(val)), bytes.NewReader(val), true)
-		if w.has(k) {
-			w.acVals[k] = val
+		if w.put(op, kind, h, val, int64(len(val)), bytes.NewReader(val), true) {
+			w.acVals[k] = val // (a refused upload leaves the previous value in place)
 		}
 	case "put-ac", "put-raw":
 		kind := cache.AC
@@ -369,9 +486,8 @@ func (w *lruWorld) step(rng *rand.Rand) {
 		}
 		h := w.acKeys[rng.IntN(len(w.acKeys))]
 		val := w.makeValidAR(rng)
-		w.put(op, kind, h, val, int64(len(val)), bytes.NewReader(val), true)
-		if w.has(cache.LookupKey(kind, h)) {
-			w.acVals[cache.LookupKey(kind, h)] = val
+		if w.put(op, kind, h, val, int64(len(val)), bytes.NewReader(val), true) {
+			w.acVals[cache.LookupKey(kind, h)] = val // (a refused upload leaves the previous value in place)
 		}
 	case "put-badhash":
 		it := w.cas[rng.IntN(len(w.cas))]
@@ -382,6 +498,37 @@ func (w *lruWorld) step(rng *rand.Rand) {
 		big := w.max + 1 + rng.Int64N(10000)
 		// the reader holds fewer bytes than declared: an oversize upload must be refused before anything is read or evicted
 		w.put(op, cache.CAS, lib.RandHash(rng), nil, big, bytes.NewReader([]byte("x")), false)
+	case "put-oversize-present", "put-fail-present":
+		// an upload over a key that is PRESENT (any age, all three kinds) which is refused: because it is oversize (the
+		// bytes really arrive for AC/RAW; a CAS key is a digest, so there the declared size lies), or because it breaks
+		// off (CAS: wrong bytes; AC/RAW: the reader fails part-way). The version held must stay, unless it goes as the
+		// legitimate least recently used victim of the room made for the newcomer.
+		if len(w.order) == 0 {
+			return
+		}
+		k := w.order[rng.IntN(len(w.order))]
+		kind, h := splitKey(k)
+		if op == "put-oversize-present" {
+			big := w.max + 1 + rng.Int64N(w.max)
+			if kind == cache.CAS {
+				w.put(op+"-cas", kind, h, nil, big, bytes.NewReader([]byte("x")), false)
+			} else {
+				w.put(op+"-"+kind.String(), kind, h, nil, big, bytes.NewReader(bytes.Repeat([]byte{'B'}, int(big))), false)
+			}
+			return
+		}
+		if kind == cache.CAS {
+			c, ok := w.byHash[h]
+			if !ok {
+				return
+			}
+			bad := append([]byte(nil), c.content...)
+			bad[rng.IntN(len(bad))] ^= 0x20
+			w.put(op+"-cas", kind, h, bad, int64(len(bad)), bytes.NewReader(bad), false)
+		} else {
+			val := bytes.Repeat([]byte{'F'}, 1+rng.IntN(int(min(w.max, 300000))))
+			w.put(op+"-"+kind.String(), kind, h, val, int64(len(val)), &errAfterReader{data: val, fail: rng.IntN(len(val))}, false)
+		}
 	case "get", "get-unknown", "getzstd", "contains", "get-miss", "contains-wrongsize", "refresh-oldest":
 		var k string
 		if len(w.order) > 0 {
@@ -392,7 +539,7 @@ func (w *lruWorld) step(rng *rand.Rand) {
 		}
 		if k == "" || op == "get-miss" {
 			h := lib.RandHash(rng)
-			before := w.snap()
+			before := w.begin()
 			rc, _, _ := w.c.Get(ctx, cache.CAS, h, 123, 0)
 			if rc != nil {
 				_ = rc.Close()
@@ -410,10 +557,8 @@ func (w *lruWorld) step(rng *rand.Rand) {
 		kind, hash := splitKey(k)
 		size := int64(-1)
 		if kind == cache.CAS {
-			for _, c := range w.cas {
-				if c.hash == hash {
-					size = int64(len(c.content))
-				}
+			if c, ok := w.byHash[hash]; ok {
+				size = int64(len(c.content))
 			}
 		}
 		how := op
@@ -436,7 +581,7 @@ func (w *lruWorld) step(rng *rand.Rand) {
 				how = []string{"http-raw-get", "http-raw-head"}[rng.IntN(2)]
 			}
 		}
-		before := w.snap()
+		before := w.begin()
 		hit := false
 		cctx, ccancel := lib.Ctx()
 		defer ccancel()
@@ -530,7 +675,7 @@ func (w *lruWorld) step(rng *rand.Rand) {
 		if op == "fetch-unknown" {
 			sz = -1
 		}
-		before := w.snap()
+		before := w.begin()
 		var rc io.ReadCloser
 		var err error
 		if rng.IntN(2) == 0 && w.storage == "zstd" {
@@ -547,9 +692,10 @@ func (w *lruWorld) step(rng *rand.Rand) {
 		after := w.snap()
 		w.log("%s %s L=%d -> hit=%v err=%v (entries account for %d -> %d)", op, k[:12], L, hit, err, sumSizes(before), sumSizes(after))
 		w.r.Count("op." + op + "." + map[bool]string{true: "hit", false: "nohit"}[hit])
-		w.judge(op, before, after, k, L, false)
-		if _, is := after.sizes[k]; is {
-			w.touch(k)
+		_, held := after.sizes[k]
+		w.judge(op, before, after, k, L, held)
+		if held {
+			w.add(k)
 		}
 		if op != "fetch-miss" && !hit && err == nil && L+L/100+8192 <= w.max {
 			w.r.Violation("C05:fitting-fetch-missed:"+op, fmt.Sprintf("backend holds %d bytes, cache of %d: local miss was not answered from the backend", L, w.max), w.detail(nil))
@@ -560,9 +706,15 @@ func (w *lruWorld) step(rng *rand.Rand) {
 		h := lib.RandHash(rng)
 		val := w.makeValidAR(rng)
 		kind := []cache.EntryKind{cache.AC, cache.RAW}[rng.IntN(2)]
+		if rng.IntN(6) == 0 {
+			// a value larger than the whole cache
+			ar := &pb.ActionResult{StdoutRaw: bytes.Repeat([]byte{'o'}, int(w.max+1+rng.Int64N(w.max)))}
+			val, _ = proto.Marshal(ar)
+			op = "fetch-ac-oversize"
+		}
 		w.px.SetBlob(kind, h, val)
 		k := cache.LookupKey(kind, h)
-		before := w.snap()
+		before := w.begin()
 		rc, _, err := w.c.Get(ctx, kind, h, -1, 0)
 		hit := err == nil && rc != nil
 		if rc != nil {
@@ -571,11 +723,12 @@ func (w *lruWorld) step(rng *rand.Rand) {
 		}
 		lib.WaitEvictionsDrained(w.c, 0)
 		after := w.snap()
-		w.log("fetch-ac %s L=%d -> hit=%v", k[:12], len(val), hit)
-		w.r.Count("op.fetch-ac." + map[bool]string{true: "hit", false: "nohit"}[hit])
-		w.judge(op, before, after, k, int64(len(val)), false)
-		if _, is := after.sizes[k]; is {
-			w.touch(k)
+		w.log("%s %s L=%d -> hit=%v", op, k[:12], len(val), hit)
+		w.r.Count("op." + op + "." + map[bool]string{true: "hit", false: "nohit"}[hit])
+		_, held := after.sizes[k]
+		w.judge(op, before, after, k, int64(len(val)), held)
+		if held {
+			w.add(k)
 			w.acVals[k] = val
 		}
 		w.px.Delete(kind, h)
@@ -588,14 +741,12 @@ func (w *lruWorld) step(rng *rand.Rand) {
 			ds = append(ds, &pb.Digest{Hash: x.hash, SizeBytes: int64(len(x.content))})
 			ks = append(ks, "cas/"+x.hash)
 		}
-		before := w.snap()
+		before := w.begin()
 		_, err := w.c.FindMissingCasBlobs(ctx, ds)
 		w.judge(op, before, w.snap(), "", 0, false)
 		if err == nil {
 			for _, k := range ks {
-				if w.has(k) {
-					w.touch(k)
-				}
+				w.touch(k) // (one request: one age for all of them)
 			}
 		} else {
 			w.resync()
@@ -615,7 +766,20 @@ func (w *lruWorld) step(rng *rand.Rand) {
 		}
 		k := acs[rng.IntN(len(acs))]
 		_, hash := splitKey(k)
-		before := w.snap()
+		before := w.begin()
+		// the value held for the key names what the lookup has to check; with a backend, a Tree blob that is not held
+		// locally is looked for there: an attempted fetch, for which room may be made
+		held := &pb.ActionResult{}
+		_ = proto.Unmarshal(w.acVals[k], held)
+		var absentTree *pb.Digest
+		if w.px != nil {
+			for _, d := range held.OutputDirectories {
+				if _, is := before.sizes["cas/"+d.TreeDigest.Hash]; !is {
+					absentTree = d.TreeDigest
+					break
+				}
+			}
+		}
 		var ar *pb.ActionResult
 		var err error
 		via := "disk"
@@ -641,50 +805,141 @@ func (w *lruWorld) step(rng *rand.Rand) {
 				res = w.srv.HTTPHead("/ac/" + hash)
 			}
 			if res.Status == 200 {
-				// the referenced blobs are those of the value the model holds for the key
-				ar = &pb.ActionResult{}
-				if proto.Unmarshal(w.acVals[k], ar) != nil {
-					ar = nil
-				}
+				ar = held
 			}
 		}
 		w.r.Count("getvalidated.via." + via)
-		w.judge(op, before, w.snap(), "", 0, false)
+		if absentTree != nil {
+			// (the lookup found the action result itself, and Tree blobs listed before the absent one, before it went to
+			// the backend: whether those finds are uses although the lookup as a whole misses is left open)
+			w.r.Count("getvalidated.tree-looked-for-at-backend")
+			w.ageOpen = map[string]bool{k: true}
+			for _, d := range held.OutputDirectories {
+				w.ageOpen["cas/"+d.TreeDigest.Hash] = true
+			}
+			w.judge("getvalidated-tree-fetch", before, w.snap(), "cas/"+absentTree.Hash, absentTree.SizeBytes, false)
+			w.ageOpen = nil
+		} else {
+			w.judge(op, before, w.snap(), "", 0, false)
+		}
 		if err == nil && ar != nil {
+			// a hit: the action result and everything it references was found, i.e. used - by one request
 			w.touch(k)
-			for _, f := range ar.OutputFiles {
-				if len(f.Contents) == 0 && f.Digest != nil && f.Digest.SizeBytes > 0 {
-					w.touch("cas/" + f.Digest.Hash)
+			nrefs := 0
+			use := func(d *pb.Digest) {
+				if d != nil && d.SizeBytes > 0 {
+					w.touch("cas/" + d.Hash)
+					nrefs++
 				}
 			}
-			if ar.StdoutDigest != nil && ar.StdoutDigest.SizeBytes > 0 {
-				w.touch("cas/" + ar.StdoutDigest.Hash)
+			for _, f := range held.OutputFiles {
+				if len(f.Contents) == 0 {
+					use(f.Digest)
+				}
+			}
+			for _, d := range held.OutputDirectories {
+				use(d.TreeDigest)
+				for _, fh := range w.trees[d.TreeDigest.Hash] {
+					if c, ok := w.byHash[fh]; ok {
+						use(&pb.Digest{Hash: fh, SizeBytes: int64(len(c.content))})
+					}
+				}
+				w.r.Count("getvalidated.hit.with-tree")
+			}
+			use(held.StdoutDigest)
+			use(held.StderrDigest)
+			if held.StderrDigest != nil {
+				w.r.Count("getvalidated.hit.with-stderr-digest")
 			}
 			w.r.Count("op.getvalidated.hit")
+			w.r.CountN("getvalidated.hit.references", int64(nrefs))
 		} else {
 			w.r.Count("op.getvalidated.miss")
 			w.resync() // partial touches of a missing lookup are left open by the statement
 		}
-		w.log("getvalidated %s -> hit=%v", k[:12], ar != nil)
+		w.log("getvalidated(%s) %s -> hit=%v", via, k[:12], ar != nil)
 	}
 }
 
+// makeValidAR builds an action result over the pool: output files, an output directory (a Tree blob of the pool and
+// the files it lists), stdout and stderr by digest. References prefer blobs that are held, so that lookups hit.
 func (w *lruWorld) makeValidAR(rng *rand.Rand) []byte {
+	var present []acctItem
+	var presentTrees []string
+	for _, k := range w.order {
+		if kind, h := splitKey(k); kind == cache.CAS {
+			if c, ok := w.byHash[h]; ok {
+				present = append(present, c)
+				if _, isTree := w.trees[h]; isTree {
+					presentTrees = append(presentTrees, h)
+				}
+			}
+		}
+	}
+	pick := func() acctItem {
+		if len(present) > 0 && rng.IntN(4) != 0 {
+			return present[rng.IntN(len(present))]
+		}
+		return w.cas[rng.IntN(len(w.cas))]
+	}
+	dg := func(it acctItem) *pb.Digest { return &pb.Digest{Hash: it.hash, SizeBytes: int64(len(it.content))} }
 	ar := &pb.ActionResult{ExitCode: int32(rng.IntN(3)), ExecutionMetadata: &pb.ExecutedActionMetadata{Worker: w.caseID}}
 	n := rng.IntN(3)
 	for i := 0; i < n; i++ {
-		it := w.cas[rng.IntN(len(w.cas))]
-		ar.OutputFiles = append(ar.OutputFiles, &pb.OutputFile{Path: fmt.Sprintf("o/%d", i), Digest: &pb.Digest{Hash: it.hash, SizeBytes: int64(len(it.content))}})
+		ar.OutputFiles = append(ar.OutputFiles, &pb.OutputFile{Path: fmt.Sprintf("o/%d", i), Digest: dg(pick())})
+	}
+	if len(w.treeHashes) > 0 && rng.IntN(3) == 0 {
+		th := w.treeHashes[rng.IntN(len(w.treeHashes))]
+		if len(presentTrees) > 0 && rng.IntN(4) != 0 {
+			th = presentTrees[rng.IntN(len(presentTrees))]
+		}
+		ar.OutputDirectories = append(ar.OutputDirectories, &pb.OutputDirectory{Path: "dir", TreeDigest: dg(w.byHash[th])})
 	}
 	if rng.IntN(3) == 0 {
-		it := w.cas[rng.IntN(len(w.cas))]
-		ar.StdoutDigest = &pb.Digest{Hash: it.hash, SizeBytes: int64(len(it.content))}
+		ar.StdoutDigest = dg(pick())
 	}
-	if rng.IntN(3) == 0 {
+	switch rng.IntN(4) {
+	case 0:
 		ar.StderrRaw = bytes.Repeat([]byte{'e'}, []int{10, 3000, 9000}[rng.IntN(3)])
+	case 1:
+		ar.StderrDigest = dg(pick())
 	}
 	b, _ := proto.Marshal(ar)
 	return b
+}
+
+// addTrees adds Tree blobs to the pool: a root directory and a child directory listing files of the pool.
+func (w *lruWorld) addTrees(rng *rand.Rand, n int) {
+	files := append([]acctItem(nil), w.cas...)
+	for t := 0; t < n; t++ {
+		var listed []string
+		node := func(i int) *pb.FileNode {
+			it := files[rng.IntN(len(files))]
+			listed = append(listed, it.hash)
+			return &pb.FileNode{Name: fmt.Sprintf("f%d", i), Digest: &pb.Digest{Hash: it.hash, SizeBytes: int64(len(it.content))}}
+		}
+		root := &pb.Directory{}
+		for i := 0; i < 1+rng.IntN(2); i++ {
+			root.Files = append(root.Files, node(i))
+		}
+		tree := &pb.Tree{Root: root}
+		if rng.IntN(2) == 0 {
+			child := &pb.Directory{Files: []*pb.FileNode{node(9)}}
+			cb, _ := proto.Marshal(child)
+			root.Directories = append(root.Directories, &pb.DirectoryNode{Name: "sub", Digest: &pb.Digest{Hash: lib.Sha256Hex(cb), SizeBytes: int64(len(cb))}})
+			tree.Children = append(tree.Children, child)
+		}
+		b, _ := proto.Marshal(tree)
+		h := lib.Sha256Hex(b)
+		if _, dup := w.byHash[h]; dup {
+			continue
+		}
+		it := acctItem{kind: cache.CAS, hash: h, content: b}
+		w.cas = append(w.cas, it)
+		w.byHash[h] = it
+		w.trees[h] = listed
+		w.treeHashes = append(w.treeHashes, h)
+	}
 }
 
 func runC05(r *lib.Run) {
@@ -696,12 +951,15 @@ func runC05(r *lib.Run) {
 	rng := r.Rng("c05")
 	pool := lib.NewDirPool("c05")
 	defer pool.Close()
-	var cur *lruWorld
+	var cur atomic.Pointer[lruWorld] // (the hook runs on the goroutines of the server's handlers as well)
 	disk.VerifSetHook(func(point, key string, n int64) {
-		if point == "lru.removed" && cur != nil {
-			cur.remMu.Lock()
-			cur.removed = append(cur.removed, key)
-			cur.remMu.Unlock()
+		if point != "lru.removed" {
+			return
+		}
+		if w := cur.Load(); w != nil {
+			w.remMu.Lock()
+			w.removed = append(w.removed, key)
+			w.remMu.Unlock()
 		}
 	})
 	defer disk.VerifSetHook(nil)
@@ -735,8 +993,9 @@ func runC05(r *lib.Run) {
 			r.Inconclusive("cache start: " + err.Error())
 			return
 		}
-		w := &lruWorld{r: r, c: c, max: max, storage: storage, caseID: fmt.Sprintf("C05-s%d-h%d", r.Seed, i), acVals: map[string][]byte{}, px: px, srv: srv}
-		cur = w
+		w := &lruWorld{r: r, c: c, max: max, storage: storage, caseID: fmt.Sprintf("C05-s%d-h%d", r.Seed, i), acVals: map[string][]byte{}, px: px, srv: srv,
+			rank: map[string]int64{}, trees: map[string][]string{}, byHash: map[string]acctItem{}}
+		cur.Store(w)
 		nk := 4 + rng.IntN(9)
 		sizes := []int64{1, 100, 4095, 4096, 4097, max / 16, max / 8, max / 8, max / 4, max / 4, max / 3, max / 2, max - 8192, max - 4096}
 		for k := 0; k < nk; k++ {
@@ -746,6 +1005,23 @@ func runC05(r *lib.Run) {
 			}
 			b := lib.GenBlob(rng, int(sz), lib.Pick(rng, lib.ContentKinds), fmt.Sprintf("%s-k%d", w.caseID, k))
 			w.cas = append(w.cas, acctItem{kind: cache.CAS, hash: lib.Sha256Hex(b), content: b})
+			w.byHash[w.cas[k].hash] = w.cas[k]
+		}
+		// Tree blobs listing files of the pool (referenced by action results as output directories)
+		w.addTrees(rng, 1+rng.IntN(2))
+		// items larger than the whole cache (max+1 .. 2*max), compressible and not: on every path a pool item takes
+		// (upload, fetch with known / unknown size, reference of an action result) they must be refused without evicting
+		if rng.IntN(2) == 0 {
+			for _, kind := range []string{"text", "random"} {
+				if rng.IntN(3) == 0 {
+					continue
+				}
+				b := lib.GenBlob(rng, int(max+1+rng.Int64N(max)), kind, w.caseID+"-oversize-"+kind)
+				it := acctItem{kind: cache.CAS, hash: lib.Sha256Hex(b), content: b}
+				w.cas = append(w.cas, it)
+				w.byHash[it.hash] = it
+				r.Count("pool.oversize-item." + kind)
+			}
 		}
 		for k := 0; k < 2+rng.IntN(3); k++ {
 			w.acKeys = append(w.acKeys, lib.RandHash(rng))
@@ -758,7 +1034,7 @@ func runC05(r *lib.Run) {
 		if i < 2 {
 			r.Sample(w.detail(nil))
 		}
-		cur = nil
+		cur.Store(nil)
 		lib.WaitEvictionsDrained(c, 0)
 		if srv != nil {
 			srv.Close()
